@@ -119,12 +119,12 @@ var checkSpecs = map[string]CheckSpec{
 		{Pkg: "headers", Entry: "zzH_C14_unit", Reach: []string{"approved", "rejected"}, Secondary: true},
 		{Pkg: "cfgerrors", Entry: "zzH_C19_unit", Reach: []string{"exhausted"}, Secondary: true},
 	}, Bounds: map[string]string{
-		"quick":    "every indexing, slicing, dereference, type assertion, division and explicit panic executed on any explored path is an obligation. serve: dispatch / header / origin scenarios with a nil header map, nil and empty value lists, odd pre-set writer state, and an Origin value of any length from 401 bytes to 1 MiB; config: junk and symbolic atoms (<=5-byte symbolic origin pattern with IDNA/netip/PSL answering arbitrarily, <=3-byte symbolic names), nil and empty lists, symbolic 64-bit integers, through NewMiddleware, Reconfigure, Config, cfgerrors.All (incl. All(nil)); parse: origins.Parse + Tree.Contains on <=14 symbolic bytes and on any length up to 1 MiB; plus the unit harnesses of C13 (ParsePattern, <=12 bytes), C14 (headers.Check) and C19 (All)",
+		"quick":    "every indexing, slicing, dereference, type assertion, division and explicit panic executed on any explored path is an obligation. serve: method / PNA / steps / lists scenarios as they are (incl. empty ACRM, ACRPN and ACRH value lists); dispatch / header / origin scenarios with a nil header map, nil and empty value lists, odd pre-set writer state, and an Origin value of any length from 401 bytes to 1 MiB; config: junk and symbolic atoms (<=5-byte symbolic origin pattern with IDNA/netip/PSL answering arbitrarily, <=3-byte symbolic names), nil and empty lists, symbolic 64-bit integers, through NewMiddleware, Reconfigure, Config, cfgerrors.All (incl. All(nil)); parse: origins.Parse + Tree.Contains on <=14 symbolic bytes and on any length up to 1 MiB; plus the unit harnesses of C13 (ParsePattern, <=12 bytes), C14 (headers.Check) and C19 (All)",
 		"thorough": "origins.Parse <=17 bytes, ParsePattern <=15 bytes, thorough shapes of C14/C19",
 	}, Outside: "inputs longer than the bounds except through the length-cap path; ACRH field lines longer than C14's bounds; panics inside IDNA/netip/PSL (run natively on concrete hosts, stubbed on symbolic ones); stack exhaustion; the other properties' harnesses also treat any panic as a violation of their own property",
 		Explain: "panic-freedom is a global obligation of the engine; these harnesses drive the exported surface with inputs not constrained by validity assumptions"},
 	"C18": {ID: "C18", Harnesses: []HarnessSpec{
-		{Pkg: "cors", Entry: "zzH_C18_api", Reach: []string{"counted"}, EngineOnlyOK: true},
-	}, Bounds: map[string]string{"quick": scenarioBoundsQuick + " (origin, method, header and PNA scenarios)", "thorough": scenarioBoundsThorough}, Outside: "the runtime's real allocation counts (escape analysis and the allocator are not in the SSA form: not applicable to this technique); sizes above the bounds (a per-byte or per-element allocation shows up at these sizes, a threshold-triggered one above the bound does not)",
+		{Pkg: "cors", Entry: "zzH_C18_api", Reach: []string{"counted", "long-method", "long-origin"}, EngineOnlyOK: true},
+	}, Bounds: map[string]string{"quick": scenarioBoundsQuick + " (origin, method, header, PNA and steps scenarios); plus an Access-Control-Request-Method of 7-12 symbolic bytes, and an Origin / Access-Control-Request-Method of any length between 401 bytes and 1 MiB", "thorough": scenarioBoundsThorough}, Outside: "the runtime's real allocation counts (escape analysis and the allocator are not in the SSA form: not applicable to this technique); sizes above the bounds (a per-byte or per-element allocation shows up at these sizes, a threshold-triggered one above the bound does not)",
 		Explain: "allocation-site events (make, new, closures, boxing of non-pointers, append growth, string building, Header.Add/Set, modelled allocating callees) are counted inside ServeHTTP, the harness's own writer/handler excluded; all paths that take the same branches in package cors must have the same count whatever the internal scanning loops did, and the count must be <= 16"},
 }
